@@ -344,7 +344,8 @@ func TestC10Pools(t *testing.T) {
 			}
 		}
 	}
-	for _, l := range [][]string{{"a"}, {"a", "b"}, {"x", "yz", ""}} {
+	// text lists whose FIRST element reads as a number: still text lists
+	for _, l := range [][]string{{"a"}, {"a", "b"}, {"x", "yz", ""}, {"1", "b"}, {"1.5", "b", "c"}, {"a", "1"}, {"007", "x"}} {
 		var cargs []*lib.Node
 		for _, x := range l {
 			cargs = append(cargs, lib.Str(x))
@@ -355,6 +356,8 @@ func TestC10Pools(t *testing.T) {
 			emit("list(text)[n]", "const", lib.Index(lib.Call("list", cargs...), int64(i)), "k", "unused")
 		}
 		emit("list(text)", "row", lib.Call("list", lib.Key(), lib.Value()), "kk", "vv")
+		emit("list(text)", "row", lib.Call("list", lib.Value(), lib.Key()), "kk", "1")
+		emit("list(text)[n]", "row", lib.Index(lib.Call("list", lib.Value(), lib.Key()), 1), "kk", "2.5")
 	}
 	// --- distances
 	vecs := [][]string{{"1", "2", "3"}, {"0", "0", "1"}, {"1.5", "2.5"}, {"3", "4"}, {"1"}, {"2", "2", "2", "2"}, {"0.5", "0.25", "1", "2"}}
